@@ -237,6 +237,9 @@ func checkC07(c *Ctx) {
 	c.rule("C07.R5", "restore order and content: Storer.Clear precedes every Set*, each alternative is restored through its own setter under the snapshot's key, the continuation is cleared before the single push", 4)
 	c.rule("C07.R6", "every successful jump stores Storer.GetValues() into the variables checkpoint", 1)
 	c.rule("C07.R7", "Snapshot() reads the checkpoint: Variables from variableSnapshot, CurrentNode from currentNode, VisitedNodes from visitedNodes", 3)
+	c.rule("C07.R8", "premises decided elsewhere: visited()/visited_count() read the runner's live visit map field (C11.R4) — RestoreAt installs a new map; the default storer answers GetValues/GetValue/Contains from its current contents after Clear and Set (C03.R5)", 2)
+	dependsOn(c, "C07.R8", "a restored runner must continue exactly as the original: script functions that kept the map RestoreAt replaced would answer from the abandoned history", "C11.R4")
+	dependsOn(c, "C07.R8", "RestoreAt clears and refills the storer and the next node entry checkpoints GetValues(): a storer that answers from stale data would put variables from before the restore into later snapshots", "C03.R5")
 	if !m.ok(c, "C07") {
 		return
 	}
